@@ -61,6 +61,10 @@ def cases(tier, seed):
     for i in range(n):
         out.append({'name': 'approx-%d' % i, 'kind': 'approx',
                     'seed': [seed, 45, i]})
+    n = 14 if tier == 'quick' else 120
+    for i in range(n):
+        out.append({'name': 'bypass-%d' % i, 'kind': 'bypass',
+                    'seed': [seed, 46, i]})
     return out
 
 
@@ -92,7 +96,7 @@ def _set_uniform(reg, T0):
 
 
 def probe_rodded(res, reg, dz, h_gap, t_gap, adiabatic, key, tdep,
-                 frozen=True, limits=None):
+                 frozen=True, limits=None, eval_temps=None):
     """Read the weights of [T_int, T_byp, walls/gap] -> new [T_int, T_byp].
 
     frozen=True : walls that have another side are independent inputs
@@ -272,11 +276,32 @@ def probe_rodded(res, reg, dz, h_gap, t_gap, adiabatic, key, tdep,
                     reg.coolant.update(act_byp[0])
                     lim_here = min(lim_here, float(
                         _rr._calculate_byp_dz(reg, which)[0]))
+                # ... and at the two temperatures DASSH is meant to
+                # evaluate (inlet, estimated outlet), recomputed here rather
+                # than read from Reactor.min_dz
+                lim_ends = []
+                for T_ev in eval_temps or []:
+                    reg.duct.update(T_ev if reg._conv_approx else sv.td)
+                    reg._update_coolant_int_params(T_ev, use_mat_tracker=False)
+                    le = float(_rr._calculate_int_dz(reg, which)[0])
+                    if flowing:
+                        reg._update_coolant_byp_params([T_ev] * nb)
+                        le = min(le, float(_rr._calculate_byp_dz(reg,
+                                                                 which)[0]))
+                    lim_ends.append(le)
+                # put the correlated parameters back as the sweep left them
+                reg._update_coolant_int_params(t_int_mean,
+                                               use_mat_tracker=False)
+                if nb > 0:
+                    reg._update_coolant_byp_params(act_byp)
                 sv.restore()
-            if lim_here < dz <= limits + 1e-12:
+            deficit = (dz - lim_here) / dz
+            if lim_ends and lim_here < dz <= min(lim_ends) + 1e-12 and \
+                    deficit < 0.02:
                 k2['mech'] = 'limit_lower_at_actual_state_than_at_evaluation_temps'
             data_extra = {'limit_at_state': lim_here,
-                          'limit_at_ends': limits}
+                          'limit_at_evaluation_temps': lim_ends,
+                          'limit_reported': limits, 'deficit': deficit}
         else:
             data_extra = {}
         res.check('W_nonneg_weights', minw >= -tol,
@@ -475,6 +500,21 @@ def build_problem(case):
             feats['regions'] = [rg['model'] for rg in
                                 t.get('AxialRegion', {}).values()]
         P['bypass_fraction'] = wl.loguniform(rng, 0.01, 0.2)
+    elif case['kind'] == 'bypass':
+        # flowing bypass gap made the limiting region, T-dependent coolant
+        # with a real temperature rise (limit differs inlet vs outlet)
+        tdep = True
+        P, feats = wl.single_assembly(
+            rng, tdep=True, max_rings=4, length=0.3,
+            n_duct=int(wl.choose(rng, [2, 2, 3])),
+            gap=wl.choose(rng, ['none', 'no_flow', 'duct_average', 'flow']),
+            vel=wl.loguniform(rng, 0.3, 4.0), lf=False, regions=False,
+            conv_approx=False, byp=wl.loguniform(rng, 0.004, 0.05))
+        sp = P['power']['asm']['0']
+        sp['total'] = sp['total'] * 2.0
+        sp['comps'] = [1, 2, 3]
+        if P['gap_model'] != 'none':
+            P['bypass_fraction'] = wl.loguniform(rng, 0.02, 0.2)
     elif case['kind'] == 'approx':
         # low-flow convection approximation with T-dependent wall/coolant
         tdep = True
@@ -557,7 +597,10 @@ def run_probe_case(case, res):
                     rows[0] += probe_rodded(res, reg, dzmax, hg, tg,
                                             r._is_adiabatic, key, tdep,
                                             frozen=True,
-                                            limits=float(r.min_dz['dz'][ai]))
+                                            limits=float(r.min_dz['dz'][ai]),
+                                            eval_temps=[
+                                                float(r.inlet_temp),
+                                                float(a._estimated_T_out)])
                     if i == pts[-1]:
                         rows[0] += probe_rodded(res, reg, dzmax, hg, tg,
                                                 r._is_adiabatic, key, tdep,
